@@ -66,6 +66,23 @@ package pac
 //@ ensures p.Mode == 4 ==> result.Scheme == "socks"
 //@ ensures p.Mode == 5 ==> result.Scheme == "socks4"
 
+// One entry of a result list, as spec functions of its text.
+//@ define entDirect(e string) bool = trimSpace(e) == "" || trimSpace(e) == "DIRECT"
+//@ define entOK(e string) bool = cutFound(trimSpace(e), " ") && splitOK(cutAfter(trimSpace(e), " "))
+//@ define entMode(e string) int = ite(entDirect(e), 0, modeOf(cutBefore(trimSpace(e), " ")))
+
+// All: every entry of the list, in order; any malformed entry rejects the list.
+//@ func (Proxies).All
+//@ property C14
+//@ modifies elems(Proxy)
+//@ ensures s == "" ==> result1 == nil && len(result0) == 0
+//@ ensures s != "" && result1 == nil ==> len(result0) == splitN(s, ";") && forall i int {result0[i]} :: 0 <= i && i < len(result0) ==> (entDirect(splitAt(s, ";", i)) || entOK(splitAt(s, ";", i))) && result0[i].Mode == entMode(splitAt(s, ";", i)) && (!entDirect(splitAt(s, ";", i)) ==> result0[i].Host == splitHost(cutAfter(trimSpace(splitAt(s, ";", i)), " ")) && result0[i].Port == splitPort(cutAfter(trimSpace(splitAt(s, ";", i)), " ")))
+//@ ensures s != "" && (exists i int :: 0 <= i && i < splitN(s, ";") && !entDirect(splitAt(s, ";", i)) && !entOK(splitAt(s, ";", i))) ==> result1 != nil
+//@ loop 0:
+//@   invariant len(res) == len(spec) && len(spec) == splitN(s, ";") && fresh(res)
+//@   invariant forall j int {spec[j]} :: 0 <= j && j < len(spec) ==> spec[j] == splitAt(s, ";", j)
+//@   invariant forall j int {res[j]} :: 0 <= j && j <= rangeindex ==> (entDirect(spec[j]) || entOK(spec[j])) && res[j].Mode == entMode(spec[j]) && (!entDirect(spec[j]) ==> res[j].Host == splitHost(cutAfter(trimSpace(spec[j]), " ")) && res[j].Port == splitPort(cutAfter(trimSpace(spec[j]), " ")))
+
 // The package initialiser establishes the global invariants of this file.
 //@ func init
 //@ property C05 C14
